@@ -1598,8 +1598,9 @@ class Compiler:
         yield EmitText(node.prefix + node.name + node.suffix)
 
     def visit_Attribute(self, node):
+        # (what stands in front of the value is literal text)
         attr_format = (node.space + node.name + node.eq +
-                       node.quote + "%s" + node.quote)
+                       node.quote).replace("%", "%%") + "%s" + node.quote
 
         filter_args = list(map(self._engine.cache.get, node.filters))
 
